@@ -142,6 +142,37 @@ func checkC07(ctx *Ctx, c *Case) error {
 			return fmt.Errorf("message changed after overwriting Marshal's output (aliasing): %s", diffStr(after, before))
 		}
 	case "readonly":
+		// a oneof field holding a typed-nil wrapper pointer is read as "not set";
+		// sizing and reading such a message must leave the struct alone (a panic in
+		// that hand-made state is only counted: no statement covers it)
+		if q := model.BuildP(t, d.ProtoReflect()); digest(c.Bytes, "typednil")%3 == 0 && model.SetTypedNilWrappers(q) > 0 {
+			qb := model.Snapshot(q)
+			qm := q.ProtoReflect()
+			for _, st := range []struct {
+				name string
+				f    func()
+			}{
+				{"proto.Size", func() { _ = proto.Size(q) }},
+				{"Has / WhichOneof / Range", func() {
+					for i := 0; i < qm.Descriptor().Oneofs().Len(); i++ {
+						_ = qm.WhichOneof(qm.Descriptor().Oneofs().Get(i))
+					}
+					for i := 0; i < qm.Descriptor().Fields().Len(); i++ {
+						_ = qm.Has(qm.Descriptor().Fields().Get(i))
+					}
+					qm.Range(func(protoreflect.FieldDescriptor, protoreflect.Value) bool { return true })
+				}},
+			} {
+				if perr := safely(func() error { st.f(); return nil }); perr != nil {
+					ctx.Label("observed, not asserted: " + st.name + " panics on a typed-nil oneof wrapper")
+					continue
+				}
+				if after := model.Snapshot(q); after != qb {
+					return fmt.Errorf("read-only call %s changed the Go struct of a message whose oneof field holds a typed-nil wrapper: %s", st.name, diffStr(after, qb))
+				}
+			}
+			ctx.Label("typed-nil oneof wrappers")
+		}
 		p := model.BuildP(t, d.ProtoReflect())
 		other := model.BuildP(t, d.ProtoReflect())
 		before := model.Snapshot(p)
